@@ -37,8 +37,13 @@ Spec1OK(o) ==
                     /\ v.calls[i].name = cust[i].name /\ Len(v.calls[i].args) = Len(cust[i].args)
                     /\ \A j \in 1..Len(cust[i].args) : ArgMatches(cust[i].args[j], v.calls[i].args[j]))>>
 
+(* a numeric literal is exactly the number it spells: the result prints like  *)
+(* the literal read by a correctly rounded decimal reader (field want)         *)
+Exact(o) == IF "want" \in DOMAIN o THEN \A a \in 1..Len(o.vars) : o.vars[a].repr = o.want ELSE TRUE
+
 Failing(o) ==
   (IF ~Same(o) THEN <<"spellings_differ">> ELSE <<>>)
+  \o (IF ~Exact(o) THEN <<"literal_not_exact">> ELSE <<>>)
   \o (IF o.must \/ o.vars[1].out.err = ""
       THEN LET s == Spec1OK(o) IN
            (IF ~s[1] THEN <<"value">> ELSE <<>>) \o (IF ~s[2] THEN <<"events">> ELSE <<>>)
